@@ -98,6 +98,11 @@ def gen_inputs(ctx):
             p = rng.randrange(min(len(t), 6))
             t[p] = rng.randrange(256)
             out.append(("ScriptParse", B(bytes(t)), ("corrupt-head",)))
+    # scripts BUILT IN STEPS: serialised once, then extended through the public command list, then serialised again
+    for _ in range(12 if q else 150):
+        cm = [({"op": rng.choice([0, 0x51, 0x76, 0xa9, 0xac])} if rng.random() < 0.5 else {"d": elem(rng, rng.choice([1, 20, 75, 76, 255, 256]))})
+              for _ in range(rng.randrange(2, 6))]
+        out.append(("ScriptSer", {"cmds": cm, "raw": rng.random() < 0.5, "built_in_steps": rng.randrange(0, len(cm))}, ("ser-built-in-steps",)))
     # tapes with NON-MINIMAL pushes and with oversized PUSHDATA2 elements, lengths declared correctly: whether the
     # parser takes them or not, what it returns must serialise in standard form (or refuse elements over 520 bytes)
     def vi(n):
